@@ -298,6 +298,20 @@ theorem xcube_repaired_on_former_witnesses :
         rw [h1]
       · cases h1
 
+/-! ### `get_matched_pairs` need not terminate -/
+
+/-- a correction with a cycle through the syndrome vertex makes the walk of `get_matched_pairs`
+    run forever (triangle graph, all three edges in the correction): the model reports `hang`.
+    On the implementation this happens with zero matching weights, e.g. pure X noise at rate 1/2 on
+    `XCubeCode(3,3,3)` (watchdog in the harness; the model stops at the same point). -/
+theorem get_matched_pairs_can_hang :
+    (matchedPairs [[1, 1, 0], [0, 1, 1], [1, 0, 1]] [1, 1, 1] [1, 0, 0] : Out Unit _).val = .error .hang := by
+  decide
+
+/-- without the cycle the same call returns the matched pair -/
+example : (matchedPairs [[1, 1, 0], [0, 1, 1], [1, 0, 1]] [1, 0, 0] [1, 0, 1] : Out Unit _).val
+    = .ok [(0, 2)] := by decide
+
 /-! ### non-vacuity -/
 
 /-- on the cubic lattice 2×2×2 an X error on qubit 0 is decoded to itself (an `.ok` call, to which
